@@ -756,9 +756,11 @@ def shape_of(f):
             stores[x.id] = stores.get(x.id, 0) + 1
     ifn = sorted(_if_key(x.test, x.body) for x in ast.walk(f) if isinstance(x, ast.If) and not x.orelse)
     tests = sorted(ast.unparse(x.test) for x in ast.walk(f) if isinstance(x, ast.If))
+    closures = {x.name: [a.arg for a in x.args.args] for x in ast.walk(f) if isinstance(x, ast.FunctionDef) and x is not f
+                and not (x.args.vararg or x.args.kwarg or x.args.kwonlyargs or x.args.posonlyargs)}
     ifexps = sorted(ast.unparse(x) for x in ast.walk(f) if isinstance(x, ast.IfExp))
     ncomp = sum(1 for x in ast.walk(f) if isinstance(x, _COMPS))
-    return {'cmp': cmps, 'if': ifs, 'fmt': fmts, 'defs': defs, 'stores': stores, 'ifn': ifn, 'tests': tests, 'ifexp': ifexps, 'ncomp': ncomp}
+    return {'cmp': cmps, 'if': ifs, 'fmt': fmts, 'defs': defs, 'stores': stores, 'ifn': ifn, 'tests': tests, 'ifexp': ifexps, 'ncomp': ncomp, 'closures': closures}
 
 
 class _Blank(ast.NodeTransformer):
@@ -990,6 +992,23 @@ def layout_back(f, want):
                             if isinstance(st, ast.Return) and cur_plain[k2] < ref_plain[k2] and i == len(blk) - 1:
                                 new.orelse = []
                                 blk[i:i + 1] = [new, mk(e.orelse)]
+                                done = True
+                                break
+                    # `flag = <comparison>` / `flag = bool(c)`  <-  `if c: flag = True  else: flag = False`
+                    if isinstance(st, ast.Assign) and len(st.targets) == 1 and isinstance(st.targets[0], ast.Name):
+                        v = st.value
+                        if isinstance(v, ast.Call) and isinstance(v.func, ast.Name) and v.func.id == 'bool' and len(v.args) == 1 and not v.keywords:
+                            v = v.args[0]
+                        elif not (isinstance(v, ast.Compare) or (isinstance(v, ast.UnaryOp) and isinstance(v.op, ast.Not))
+                                  or (isinstance(v, ast.BoolOp) and all(isinstance(x, (ast.Compare,)) or (isinstance(x, ast.UnaryOp) and isinstance(x.op, ast.Not))
+                                                                        for x in v.values))):
+                            v = None
+                        if v is not None:
+                            t_ = ast.copy_location(ast.Assign(targets=st.targets, value=ast.Constant(value=True)), st)
+                            f_ = ast.copy_location(ast.Assign(targets=[ast.Name(id=st.targets[0].id, ctx=ast.Store())], value=ast.Constant(value=False)), st)
+                            k2 = _if_key(v, [t_])
+                            if cur_else[k2] < ref_else[k2]:
+                                blk[i] = ast.copy_location(ast.If(test=v, body=[t_], orelse=[f_]), st)
                                 done = True
                                 break
                     if isinstance(st, ast.If):
@@ -1355,6 +1374,8 @@ def canonicalise(module_name, tree):
     if r and not os.environ.get('VERIF_NO_INLINE'):
         from . import splice as _splice
         sh = shapes().get(module_name, {})
+        notes += ['%s: %s' % (module_name, x) for x in _splice.closures_back(
+            tree, {q for q in r if '.' not in q}, {q: v.get('closures', {}) for q, v in sh.items()}, top_functions)]
         notes += ['%s: %s' % (module_name, x) for x in _splice.splice(
             tree, {q for q in r if '.' not in q}, {q for q in r if '.' in q},
             {q: v.get('defs', []) for q, v in sh.items()}, top_functions)]
